@@ -481,9 +481,9 @@ def worker(ctx, job):
 
 def run(ctx):
     nshards = ctx.pick(8, 16)
-    per = ctx.pick(40, 700)
+    per = ctx.pick(40, 2500)
     jobs = [{"n": per, "base": i * per} for i in range(nshards)]
-    ctx.shard(jobs, timeout=ctx.pick(60, 330))
+    ctx.shard(jobs, timeout=ctx.pick(60, 1500))
     total = nshards * per
     ctx.extra["histories"] = total
     ctx.floor("distinct_nontrivial", total // 3)
